@@ -51,6 +51,14 @@ impl RocksDBTransaction {
 
     /// Commit the transaction.
     pub fn commit(&self) -> Result<()> {
+        #[cfg(ckb_verif)]
+        {
+            let n = crate::verif::before_write("commit");
+            let ret = self.inner.commit().map_err(internal_error);
+            crate::verif::after_write(n);
+            return ret;
+        }
+        #[cfg(not(ckb_verif))]
         self.inner.commit().map_err(internal_error)
     }
 
